@@ -156,8 +156,8 @@ pub fn run(em: &mut Emitter, c: &Case) {
     // implementation-side oracle
     let kind = c.reply.split(':').next().unwrap_or("").to_string();
     let same_pka = r2obs == format!("ok_{}", hex(&so.honest_pka));
-    let must_reject = so.faulted1 || match kind.as_str() { "honest" | "appendzero" | "seq" | "ver" | "withnego" => false, "flip" | "longform" | "ber83in" | "berindef" | "bercons" => !same_pka, "off" => c.reply != "off:1", _ => true };
-    let must_accept = !so.faulted1 && matches!(kind.as_str(), "honest" | "appendzero" | "ver") || (kind == "off" && c.reply == "off:1") || (kind == "flip" && same_pka);
+    let must_reject = so.faulted1 || match kind.as_str() { "honest" | "appendzero" | "seq" | "ver" | "withnego" => false, "flip" | "longform" | "ber83in" | "berindef" | "bercons" | "trunc" => !same_pka, "off" => c.reply != "off:1", _ => true };
+    let must_accept = !so.faulted1 && matches!(kind.as_str(), "honest" | "appendzero" | "ver") || (kind == "off" && c.reply == "off:1") || ((kind == "flip" || kind == "trunc") && same_pka);
     let mut obs = Obs::new(out).nt(status == "ok").tag(Box::leak(kind.clone().into_boxed_str()));
     if so.k.is_none() { obs = obs.viol(&format!("reference server could not complete the exchange: {}", so.note)); }
     else if so.client_pk_ok != Some(true) { obs = obs.viol("client pubKeyAuth does not carry the server certificate key"); }
